@@ -62,6 +62,21 @@ Lemma message_types_eq :
   message_default = str "normal".
 Proof. split; reflexivity. Qed.
 
+(* forChildren: each child is looked up under its own name, the empty stanza
+   under the zero name xml.Name{} (not under the stanza's own name) *)
+Lemma lookup_args :
+  child_lookup_arg_message = NsChild /\ child_lookup_arg_presence = NsChild /\
+  wildcard_lookup_arg_message = NsZero /\ wildcard_lookup_arg_presence = NsZero.
+Proof. repeat split; reflexivity. Qed.
+
+Lemma wildcard_name k sn : src_name (wildcard_arg k) sn = ([], []).
+Proof. destruct lookup_args as (_ & _ & A & B). destruct k; unfold wildcard_arg; rewrite ?A, ?B; reflexivity. Qed.
+
+(* bufReader.Token appends a token to the replay buffer even if the underlying
+   reader returned it together with an error *)
+Lemma bufreader_buffers : bufreader_buffers_token_with_error = true.
+Proof. reflexivity. Qed.
+
 (* ------------------------------------------------------------------ *)
 (* 2. Keys and association lists                                        *)
 (* ------------------------------------------------------------------ *)
@@ -603,11 +618,11 @@ End Renaming.
 (* 6. Readers                                                           *)
 (* ------------------------------------------------------------------ *)
 
-Lemma take_n_u uerr k toks : take_n (u_token uerr) k toks = (firstn k toks, skipn k toks).
+Lemma take_n_u tm k toks : take_n (u_token tm) k toks = (firstn k toks, skipn k toks).
 Proof.
   revert toks. induction k as [|k IH]; intro toks; [reflexivity|].
   cbn [take_n]. destruct toks as [|x u]; cbn [u_token].
-  - destruct uerr; reflexivity.
+  - destruct (t_err tm); reflexivity.
   - rewrite IH. reflexivity.
 Qed.
 
@@ -621,22 +636,22 @@ Fixpoint until_close (d : nat) (v : list tok) : list tok :=
   | t :: v' => t :: until_close d v'
   end.
 
-Lemma take_n_inner uerr k : forall d v,
-  fst (take_n (iq_reader uerr) k (Some d, v)) = firstn k (until_close d v).
+Lemma take_n_inner tm k : forall d v,
+  fst (take_n (iq_reader tm) k (Some d, v)) = firstn k (until_close d v).
 Proof.
   induction k as [|k IH]; intros d v; [reflexivity|].
   cbn [take_n]. unfold iq_reader at 1. unfold inner_token.
   destruct v as [|x v]; cbn [u_token until_close].
-  - destruct uerr; reflexivity.
+  - destruct (t_err tm); reflexivity.
   - destruct x as [n| |ws|].
-    + specialize (IH (S d) v). destruct (take_n (iq_reader uerr) k (Some (S d), v)). cbn [fst] in *. cbn [firstn]. congruence.
+    + specialize (IH (S d) v). destruct (take_n (iq_reader tm) k (Some (S d), v)). cbn [fst] in *. cbn [firstn]. congruence.
     + destruct d as [|d]; [reflexivity|].
-      specialize (IH d v). destruct (take_n (iq_reader uerr) k (Some d, v)). cbn [fst] in *. cbn [firstn]. congruence.
-    + specialize (IH d v). destruct (take_n (iq_reader uerr) k (Some d, v)). cbn [fst] in *. cbn [firstn]. congruence.
-    + specialize (IH d v). destruct (take_n (iq_reader uerr) k (Some d, v)). cbn [fst] in *. cbn [firstn]. congruence.
+      specialize (IH d v). destruct (take_n (iq_reader tm) k (Some d, v)). cbn [fst] in *. cbn [firstn]. congruence.
+    + specialize (IH d v). destruct (take_n (iq_reader tm) k (Some d, v)). cbn [fst] in *. cbn [firstn]. congruence.
+    + specialize (IH d v). destruct (take_n (iq_reader tm) k (Some d, v)). cbn [fst] in *. cbn [firstn]. congruence.
 Qed.
 
-Lemma take_n_inner_done uerr k v : fst (take_n (iq_reader uerr) k (None, v)) = [].
+Lemma take_n_inner_done tm k v : fst (take_n (iq_reader tm) k (None, v)) = [].
 Proof. destruct k; reflexivity. Qed.
 
 (* leading whitespace-only character data is skipped *)
@@ -646,16 +661,30 @@ Fixpoint drop_ws (v : list tok) : list tok :=
   | _ => v
   end.
 
-Lemma trim_first_spec uerr : forall v fuel,
+(* TrimLeftSpace stops at the first token that is not white space; white space
+   that is the reader's last token and comes with its error yields that error *)
+Lemma trim_first_spec tm : forall v fuel,
   length v < fuel ->
-  trim_first (iq_reader uerr) fuel (Some 0, v) = Some (iq_reader uerr (Some 0, drop_ws v)).
+  trim_first (iq_reader tm) fuel (Some 0, v) =
+  Some (match drop_ws v with
+        | [] => if t_err tm then RErr (Some 0, []) else REof (Some 0, [])
+        | w => iq_reader tm (Some 0, w)
+        end).
 Proof.
   induction v as [|x v IH]; intros fuel Hf; (destruct fuel as [|f]; [cbn in Hf; lia|]).
-  - cbn [trim_first drop_ws]. unfold iq_reader, inner_token. cbn [u_token]. destruct uerr; reflexivity.
-  - cbn [trim_first]. destruct x as [n| |ws|]; try reflexivity.
-    destruct ws; [|reflexivity].
-    unfold iq_reader at 1. unfold inner_token. cbn [u_token drop_ws].
-    apply IH. cbn [length] in Hf. lia.
+  - cbn [trim_first drop_ws]. unfold iq_reader, inner_token. cbn [u_token]. destruct (t_err tm); reflexivity.
+  - destruct x as [n| |ws|]; [| |destruct ws|].
+    + cbn [trim_first drop_ws]. unfold iq_reader, inner_token. cbn [u_token]. reflexivity.
+    + cbn [trim_first drop_ws]. unfold iq_reader, inner_token. cbn [u_token]. reflexivity.
+    + cbn [trim_first drop_ws]. unfold iq_reader at 1. unfold inner_token at 1. cbn [u_token].
+      destruct v as [|y v'].
+      * cbn [fin_err drop_ws]. destruct (t_with tm).
+        -- destruct (t_err tm); reflexivity.
+        -- destruct f as [|f]; [cbn in Hf; lia|]. cbn [trim_first]. unfold iq_reader, inner_token. cbn [u_token].
+           destruct (t_err tm); reflexivity.
+      * cbn [fin_err]. apply IH. cbn [length] in Hf |- *. lia.
+    + cbn [trim_first drop_ws]. unfold iq_reader, inner_token. cbn [u_token]. reflexivity.
+    + cbn [trim_first drop_ws]. unfold iq_reader, inner_token. cbn [u_token]. reflexivity.
 Qed.
 
 (* ------------------------------------------------------------------ *)
@@ -685,14 +714,14 @@ Definition iq_invoke_spec (r : registry) (sn : name) (h : hdr) (payload : option
       mkout [EvIq hd (h_type h) payload (firstn (hb_reads b) content)] [] (ret_of b)
   end.
 
-Lemma invoke_iq_spec r sn h payload uerr st script content :
-  (forall k, fst (take_n (iq_reader uerr) k st) = firstn k content) ->
-  invoke_iq r sn h payload uerr st script = iq_invoke_spec r sn h payload content script.
+Lemma invoke_iq_spec r sn h payload tm st script content :
+  (forall k, fst (take_n (iq_reader tm) k st) = firstn k content) ->
+  invoke_iq r sn h payload tm st script = iq_invoke_spec r sn h payload content script.
 Proof.
   intro H. unfold invoke_iq, iq_invoke_spec.
   destruct (lookup_iq r (h_type h) _) as [[|hd]|]; try reflexivity.
   destruct (next_beh script) as [b s']. cbn [fst].
-  specialize (H (hb_reads b)). destruct (take_n (iq_reader uerr) (hb_reads b) st) as [got st']. cbn [fst] in H.
+  specialize (H (hb_reads b)). destruct (take_n (iq_reader tm) (hb_reads b) st) as [got st']. cbn [fst] in H.
   subst got. reflexivity.
 Qed.
 
@@ -700,32 +729,61 @@ Definition iq_empty_spec (r : registry) (sn : name) (h : hdr) (script : list hbe
   if bytes_eqb (h_type h) iqtype_result then iq_invoke_spec r sn h None [] script
   else mkout [] (o_replies (iq_fallback sn h)) RetErr.
 
-Definition iq_spec (r : registry) (sn : name) (h : hdr) (toks : list tok) (uerr : bool) (script : list hbeh)
+(* what the router answers when no handler can be chosen: the fallback's reply
+   (if any) and an error *)
+Definition iq_refused (sn : name) (h : hdr) : outcome := mkout [] (o_replies (iq_fallback sn h)) RetErr.
+
+(* fin_err tm rest: the error the reader returns together with the first
+   payload token (only if that is its last token and the reader is of the kind
+   that returns its error with the last token) *)
+Definition iq_spec (r : registry) (sn : name) (h : hdr) (toks : list tok) (tm : term) (script : list hbeh)
   : outcome :=
   match drop_ws toks with
-  | TStart n :: rest => iq_invoke_spec r sn h (Some n) (until_close 1 rest) script
+  | [] => if t_err tm then out_err else iq_empty_spec r sn h script
   | TEnd :: _ => iq_empty_spec r sn h script
-  | [] => if uerr then out_err else iq_empty_spec r sn h script
-  | _ :: _ => mkout [] (o_replies (iq_fallback sn h)) RetErr
+  | x :: rest =>
+      match fin_err tm rest with
+      | Some true => out_err
+      | Some false =>
+          (* truncated right after this token: taken for an empty IQ unless it is a result *)
+          match x with
+          | TStart n =>
+              if bytes_eqb (h_type h) iqtype_result then iq_invoke_spec r sn h (Some n) [] script
+              else iq_refused sn h
+          | _ => iq_refused sn h
+          end
+      | None =>
+          match x with
+          | TStart n => iq_invoke_spec r sn h (Some n) (until_close 1 rest) script
+          | _ => iq_refused sn h
+          end
+      end
   end.
 
-Lemma iq_router_spec r sn attrs toks uerr script h :
+Lemma iq_router_spec r sn attrs toks tm script h :
   new_iq sn attrs = Some h ->
-  iq_router r sn attrs toks uerr script = iq_spec r sn h toks uerr script.
+  iq_router r sn attrs toks tm script = iq_spec r sn h toks tm script.
 Proof.
   intro Hh. unfold iq_router, iq_spec. rewrite Hh.
   rewrite trim_first_spec by lia.
   destruct (drop_ws toks) as [|x rest] eqn:E.
-  - unfold iq_reader at 1. unfold inner_token. cbn [u_token]. destruct uerr; [reflexivity|].
+  - destruct (t_err tm); [reflexivity|].
     unfold iq_empty_spec. destruct (bytes_eqb (h_type h) iqtype_result); [|reflexivity].
     apply invoke_iq_spec. intro k. rewrite take_n_inner. destruct k; reflexivity.
   - unfold iq_reader at 1. unfold inner_token. cbn [u_token].
     destruct x as [n| |ws|].
-    + apply invoke_iq_spec. intro k. apply take_n_inner.
+    + destruct (fin_err tm rest) as [[|]|] eqn:EF.
+      * reflexivity.
+      * destruct (bytes_eqb (h_type h) iqtype_result); [|reflexivity].
+        apply invoke_iq_spec. intro k. rewrite take_n_inner.
+        destruct rest; [destruct k; reflexivity|discriminate].
+      * apply invoke_iq_spec. intro k. apply take_n_inner.
     + unfold iq_empty_spec. destruct (bytes_eqb (h_type h) iqtype_result); [|reflexivity].
       apply invoke_iq_spec. intro k. rewrite take_n_inner_done. destruct k; reflexivity.
-    + reflexivity.
-    + reflexivity.
+    + destruct (fin_err tm rest) as [[|]|]; try reflexivity.
+      destruct (bytes_eqb (h_type h) iqtype_result); reflexivity.
+    + destruct (fin_err tm rest) as [[|]|]; try reflexivity.
+      destruct (bytes_eqb (h_type h) iqtype_result); reflexivity.
 Qed.
 
 (* ------------------------------------------------------------------ *)
@@ -786,7 +844,7 @@ Proof.
 Qed.
 
 Section ForChildren.
-  Variable uerr : bool.
+  Variable tm : term.
   Variable all : list tok.          (* the stanza's start token followed by everything after it *)
 
   (* buffer invariant: buf is a prefix of the stanza's tokens, the underlying
@@ -803,26 +861,31 @@ Section ForChildren.
       + cbn [skipn] in H. apply IH in H. exact H.
   Qed.
 
+  (* the next token of the stanza is handed out - replayed from the buffer, or
+     fetched from the underlying reader and appended; only the reader's very last
+     token can come with an error *)
   Lemma b_token_cons b x v :
     Inv b (x :: v) ->
-    exists b', b_token uerr b = RTok x b' /\ Inv b' v /\ length (b_buf b) <= length (b_buf b') /\
-               b_buf b' ++ b_und b' = all.
+    exists b' e, b_token tm b = RTok x e b' /\ Inv b' v /\ length (b_buf b) <= length (b_buf b') /\
+               b_buf b' ++ b_und b' = all /\ (v <> [] -> e = None).
   Proof.
     intros (Ha & Ho & Hv). unfold b_token.
     destruct (b_off b <? length (b_buf b)) eqn:E.
     - apply Nat.ltb_lt in E. destruct (skipn_cons_nth _ _ _ _ TOther Hv) as [Hn Hs].
       rewrite <- Ha in Hn. rewrite app_nth1 in Hn by exact E. rewrite Hn.
-      eexists. split; [reflexivity|]. unfold Inv. cbn [b_buf b_off b_und]. repeat split; auto; try lia.
+      eexists. exists None. split; [reflexivity|]. unfold Inv. cbn [b_buf b_off b_und]. repeat split; auto; try lia.
     - apply Nat.ltb_ge in E. assert (Eo : b_off b = length (b_buf b)) by lia.
       rewrite Eo, <- Ha, skipn_app, skipn_all, Nat.sub_diag in Hv. cbn [app skipn] in Hv. rewrite Hv.
-      eexists. split; [reflexivity|]. unfold Inv. cbn [b_buf b_off b_und]. rewrite app_length. cbn [length].
+      cbn [u_token]. rewrite bufreader_buffers. cbn [orb].
+      eexists. exists (fin_err tm v). split; [reflexivity|]. unfold Inv. cbn [b_buf b_off b_und]. rewrite app_length. cbn [length].
       assert (Ha' : (b_buf b ++ [x]) ++ v = all) by (rewrite <- app_assoc; cbn [app]; rewrite <- Hv; exact Ha).
       repeat split; try lia; auto.
-      rewrite <- Ha', Eo. replace (S (length (b_buf b))) with (length (b_buf b ++ [x])) by (rewrite app_length; cbn; lia).
-      rewrite skipn_app, skipn_all, Nat.sub_diag. reflexivity.
+      + rewrite <- Ha', Eo. replace (S (length (b_buf b))) with (length (b_buf b ++ [x])) by (rewrite app_length; cbn; lia).
+        rewrite skipn_app, skipn_all, Nat.sub_diag. reflexivity.
+      + intro Hne. destruct v; [contradiction|reflexivity].
   Qed.
 
-  Lemma b_token_nil b : Inv b [] -> b_token uerr b = if uerr then RErr b else REof b.
+  Lemma b_token_nil b : Inv b [] -> b_token tm b = if t_err tm then RErr b else REof b.
   Proof.
     intros (Ha & Ho & Hv). unfold b_token.
     assert (L : length all <= b_off b).
@@ -831,64 +894,74 @@ Section ForChildren.
       rewrite skipn_length in H0. lia. }
     assert (L2 : length all = length (b_buf b) + length (b_und b)) by (rewrite <- Ha; apply app_length).
     assert (b_off b <? length (b_buf b) = false) as -> by (apply Nat.ltb_ge; lia).
-    destruct (b_und b); [reflexivity|cbn [length] in L2; lia].
+    destruct (b_und b); [cbn [u_token]; destruct (t_err tm); reflexivity|cbn [length] in L2; lia].
   Qed.
 
   (* a handler that reads k tokens from a reader satisfying the invariant gets
-     the next k tokens of the stanza *)
+     the next k tokens of the stanza, whichever way the reader ends *)
   Lemma take_n_b k : forall b v,
     Inv b v ->
-    exists b', take_n (b_token uerr) k b = (firstn k v, b') /\ Inv b' (skipn k v) /\
+    exists b', take_n (b_token tm) k b = (firstn k v, b') /\ Inv b' (skipn k v) /\
                length (b_buf b) <= length (b_buf b').
   Proof.
     induction k as [|k IH]; intros b v HI.
     - exists b. cbn. auto.
     - cbn [take_n]. destruct v as [|x v].
-      + rewrite (b_token_nil _ HI). exists b. destruct uerr; cbn; auto.
-      + destruct (b_token_cons _ _ _ HI) as (b1 & E1 & I1 & L1 & _). rewrite E1.
+      + rewrite (b_token_nil _ HI). exists b. destruct (t_err tm); cbn; auto.
+      + destruct (b_token_cons _ _ _ HI) as (b1 & e & E1 & I1 & L1 & _). rewrite E1.
         destruct (IH _ _ I1) as (b2 & E2 & I2 & L2). rewrite E2. exists b2. cbn [firstn skipn].
         repeat split; auto; try apply I2. lia.
   Qed.
 
   (* Inner(r) between children (count 0) and inside a child (count > 0) *)
-  Lemma ir_token_nil c b : Inv b [] -> ir_token uerr (Some c, b) = if uerr then RErr (Some c, b) else REof (Some c, b).
-  Proof. intro HI. unfold ir_token, inner_token. rewrite (b_token_nil _ HI). destruct uerr; reflexivity. Qed.
+  Lemma ir_token_nil c b :
+    Inv b [] -> ir_token tm (Some c, b) = if t_err tm then RErr (Some c, b) else REof (Some c, b).
+  Proof. intro HI. unfold ir_token, inner_token. rewrite (b_token_nil _ HI). destruct (t_err tm); reflexivity. Qed.
 
   Lemma ir_token_cons c b x v :
     Inv b (x :: v) ->
-    exists b', Inv b' v /\ length (b_buf b) <= length (b_buf b') /\
-      ir_token uerr (Some c, b) =
+    exists b' e, Inv b' v /\ length (b_buf b) <= length (b_buf b') /\ (v <> [] -> e = None) /\
+      ir_token tm (Some c, b) =
       match x with
-      | TStart n => RTok (TStart n) (Some (S c), b')
-      | TEnd => match c with 0 => REof (None, b') | S m => RTok TEnd (Some m, b') end
-      | t => RTok t (Some c, b')
+      | TStart n => RTok (TStart n) e (Some (S c), b')
+      | TEnd => match c with 0 => REof (None, b') | S m => RTok TEnd e (Some m, b') end
+      | t => RTok t e (Some c, b')
       end.
   Proof.
-    intro HI. destruct (b_token_cons _ _ _ HI) as (b' & E & I' & L & _). exists b'. split; [exact I'|]. split; [exact L|].
+    intro HI. destruct (b_token_cons _ _ _ HI) as (b' & e & E & I' & L & _ & N). exists b', e.
+    split; [exact I'|]. split; [exact L|]. split; [exact N|].
     unfold ir_token, inner_token. rewrite E. destruct x; reflexivity.
   Qed.
 
-  (* draining a child whose end is ahead leaves the iterator right behind it *)
+  Lemma skip_elem_nonnil d v v2 : skip_elem d v = Some v2 -> v <> [].
+  Proof. intros H E. subst v. discriminate. Qed.
+
+  (* draining a child whose end is ahead - and is not the reader's last token -
+     leaves the iterator right behind it *)
   Lemma drain_closed : forall v d b fuel v2,
-    Inv b v -> skip_elem d v = Some v2 -> length v < fuel ->
-    exists b', drain_elem uerr fuel (Some d, (Some (S d), b)) = Some (false, (Some 0, b')) /\ Inv b' v2 /\
+    Inv b v -> skip_elem d v = Some v2 -> v2 <> [] -> length v < fuel ->
+    exists b', drain_elem tm fuel (Some d, (Some (S d), b)) = Some (false, (Some 0, b')) /\ Inv b' v2 /\
                length (b_buf b) <= length (b_buf b').
   Proof.
-    induction v as [|x v IH]; intros d b fuel v2 HI Hs Hf; [discriminate|].
+    induction v as [|x v IH]; intros d b fuel v2 HI Hs Hne Hf; [discriminate|].
     destruct fuel as [|f]; [lia|]. cbn [length] in Hf.
-    destruct (ir_token_cons (S d) _ _ _ HI) as (b1 & I1 & L1 & E1).
+    destruct (ir_token_cons (S d) _ _ _ HI) as (b1 & e & I1 & L1 & N1 & E1).
     cbn [drain_elem]. unfold inner_token at 1. rewrite E1. cbn [skip_elem] in Hs.
+    assert (Ee : e = None).
+    { apply N1. destruct x as [n| |ws|]; try exact (skip_elem_nonnil _ _ _ Hs).
+      destruct d as [|d]; [inversion Hs; subst; exact Hne|exact (skip_elem_nonnil _ _ _ Hs)]. }
+    subst e.
     destruct x as [n| |ws|].
-    - destruct (IH (S d) b1 f v2 I1 Hs ltac:(lia)) as (b2 & E2 & I2 & L2).
+    - destruct (IH (S d) b1 f v2 I1 Hs Hne ltac:(lia)) as (b2 & E2 & I2 & L2).
       rewrite E2. exists b2. repeat split; auto; try apply I2. lia.
     - destruct d as [|d].
       + inversion Hs; subst v2. destruct f as [|f]; [lia|]. cbn [drain_elem]. unfold inner_token at 1.
         exists b1. repeat split; auto; apply I1.
-      + destruct (IH d b1 f v2 I1 Hs ltac:(lia)) as (b2 & E2 & I2 & L2).
+      + destruct (IH d b1 f v2 I1 Hs Hne ltac:(lia)) as (b2 & E2 & I2 & L2).
         rewrite E2. exists b2. repeat split; auto; try apply I2. lia.
-    - destruct (IH d b1 f v2 I1 Hs ltac:(lia)) as (b2 & E2 & I2 & L2).
+    - destruct (IH d b1 f v2 I1 Hs Hne ltac:(lia)) as (b2 & E2 & I2 & L2).
       rewrite E2. exists b2. repeat split; auto; try apply I2. lia.
-    - destruct (IH d b1 f v2 I1 Hs ltac:(lia)) as (b2 & E2 & I2 & L2).
+    - destruct (IH d b1 f v2 I1 Hs Hne ltac:(lia)) as (b2 & E2 & I2 & L2).
       rewrite E2. exists b2. repeat split; auto; try apply I2. lia.
   Qed.
 End ForChildren.
@@ -911,7 +984,7 @@ Fixpoint spec_events (r : registry) (k : skind) (typ : bytes) (all : list tok) (
   end.
 
 Section Loop.
-  Variable uerr : bool.
+  Variable tm : term.
   Variable all : list tok.
   Variable r : registry.
   Variable k : skind.
@@ -932,46 +1005,48 @@ Section Loop.
     intros [H1 H2 H3 H4|v1 H1 H2 H3 H4 H5]; [exact H4|]. apply skip_elem_len in H4. lia.
   Qed.
 
-  Lemma iter_next_spec fuel it v :
-    at_view fuel it v ->
+  Lemma iter_next_spec fuel it v rest :
+    at_view fuel it v -> skip_elem 0 v = Some rest ->
     match v with
     | [] => True
     | TStart n :: v1 =>
-        exists b', iter_next uerr fuel it = NItem (Some n) (mkiter (Some 1) (CElem (Some 0)) b') /\ Inv all b' v1
-    | TEnd :: rest => exists it', iter_next uerr fuel it = NStop false it' /\ Inv all (it_b it') rest
-    | _ :: v1 => exists b', iter_next uerr fuel it = NItem None (mkiter (Some 0) CTok b') /\ Inv all b' v1
+        exists b', iter_next tm fuel it = NItem (Some n) (mkiter (Some 1) (CElem (Some 0)) b') /\ Inv all b' v1
+    | TEnd :: rest => exists it', iter_next tm fuel it = NStop false it' /\ Inv all (it_b it') rest
+    | _ :: v1 => exists b', iter_next tm fuel it = NItem None (mkiter (Some 0) CTok b') /\ Inv all b' v1
     end.
   Proof.
-    intro H. destruct it as [cnt cu b].
+    intros H HS. destruct it as [cnt cu b].
+    pose proof (skip_elem_nonnil _ _ _ HS) as Hv.
     assert (D : exists b1, Inv all b1 v /\
                 (match cu with
-                 | CElem c => drain_elem uerr fuel (c, (cnt, b))
+                 | CElem c => drain_elem tm fuel (c, (cnt, b))
                  | _ => Some (false, (cnt, b))
                  end) = Some (false, (Some 0, b1))).
     { destruct H as [H1 H2 H3 H4|v1 H1 H2 H3 H4 H5]; cbn [it_cnt it_cur it_b] in *.
       - exists b. split; [exact H3|]. subst cnt. destruct H2 as [H2|H2]; subst cu; reflexivity.
-      - subst cnt cu. destruct (drain_closed uerr all v1 0 b fuel v H3 H4 H5) as (b1 & E1 & I1 & _).
+      - subst cnt cu. destruct (drain_closed tm all v1 0 b fuel v H3 H4 Hv H5) as (b1 & E1 & I1 & _).
         exists b1. split; [exact I1|exact E1]. }
     destruct D as (b1 & I1 & E1). unfold iter_next. cbn [it_cur it_cnt it_b]. rewrite E1.
     destruct v as [|x v1]; [exact I|].
-    destruct (ir_token_cons uerr all 0 _ _ _ I1) as (b2 & I2 & _ & E2). rewrite E2.
+    destruct (ir_token_cons tm all 0 _ _ _ I1) as (b2 & e & I2 & _ & N2 & E2). rewrite E2.
+    cbn [skip_elem] in HS.
     destruct x as [n| |ws|].
-    - exists b2. split; [reflexivity|exact I2].
+    - rewrite (N2 (skip_elem_nonnil _ _ _ HS)). exists b2. split; [reflexivity|exact I2].
     - eexists. split; [reflexivity|]. cbn [it_b]. exact I2.
-    - exists b2. split; [reflexivity|exact I2].
-    - exists b2. split; [reflexivity|exact I2].
+    - rewrite (N2 (skip_elem_nonnil _ _ _ HS)). exists b2. split; [reflexivity|exact I2].
+    - rewrite (N2 (skip_elem_nonnil _ _ _ HS)). exists b2. split; [reflexivity|exact I2].
   Qed.
 
   Lemma fc_loop_spec : forall fuel it v rest script failed,
     at_view (pred fuel) it v -> skip_elem 0 v = Some rest ->
     exists bfin,
-      fc_loop uerr r k typ fuel it script failed =
+      fc_loop tm r k typ fuel it script failed =
       (let '(evs, f) := spec_events r k typ all (child_names 0 v) script in LDone evs bfin false (failed || f)) /\
       Inv all bfin rest.
   Proof.
     induction fuel as [|f IH]; intros it v rest script failed HA HS.
     { apply at_view_len in HA. cbn in HA. lia. }
-    cbn [pred] in HA. cbn [fc_loop]. pose proof (iter_next_spec _ _ _ HA) as HN.
+    cbn [pred] in HA. cbn [fc_loop]. pose proof (iter_next_spec _ _ _ _ HA HS) as HN.
     pose proof (at_view_len _ _ _ HA) as HL.
     destruct v as [|x v1]; [discriminate|]. cbn [skip_elem child_names] in *. cbn [length] in HL.
     destruct x as [n| |ws|].
@@ -987,7 +1062,7 @@ Section Loop.
         cbn [it_b it_cnt it_cur].
         assert (I0 : Inv all (mkbr (b_buf b') 0 (b_und b')) all).
         { destruct I' as (A1 & A2 & A3). unfold Inv. cbn [b_buf b_off b_und]. repeat split; auto. lia. }
-        destruct (take_n_b uerr all (hb_reads bh) _ _ I0) as (br & ET & IT & LT). rewrite ET.
+        destruct (take_n_b tm all (hb_reads bh) _ _ I0) as (br & ET & IT & LT). rewrite ET.
         cbn [b_buf] in LT.
         assert (I'' : Inv all (mkbr (b_buf br) (b_off b') (b_und br)) v1).
         { destruct I' as (A1 & A2 & A3). destruct IT as (B1 & _ & _). unfold Inv. cbn [b_buf b_off b_und].
@@ -1026,17 +1101,17 @@ Definition children_spec (r : registry) (k : skind) (sn : name) (typ : bytes) (t
       mkout evs [] (if f then RetErr else RetOk)
   end.
 
-Lemma for_children_spec r k sn typ toks uerr script rest :
+Lemma for_children_spec r k sn typ toks tm script rest :
   (forall n h, lookup_child r k typ n = Some h -> h <> 0) ->
   skip_elem 0 toks = Some rest ->
-  for_children r k sn typ toks uerr script = children_spec r k sn typ toks script.
+  for_children r k sn typ toks tm script = children_spec r k sn typ toks script.
 Proof.
-  intros nz HS. unfold for_children, children_spec.
+  intros nz HS. unfold for_children, children_spec. rewrite wildcard_name.
   assert (I0 : Inv (TStart sn :: toks) (mkbr [TStart sn] 1 toks) toks).
   { unfold Inv. cbn [b_buf b_off b_und length app skipn]. auto. }
   destruct toks as [|x toks']; [discriminate|].
   assert (GEN : x <> TEnd ->
-    match fc_loop uerr r k typ (length (x :: toks') + 3) (mkiter (Some 0) CNone (mkbr [TStart sn] 1 (x :: toks'))) script false with
+    match fc_loop tm r k typ (length (x :: toks') + 3) (mkiter (Some 0) CNone (mkbr [TStart sn] 1 (x :: toks'))) script false with
     | LFuel => out_fuel
     | LPanic evs => mkout evs [] RetPanic
     | LDone evs b iter_err failed =>
@@ -1048,7 +1123,7 @@ Proof.
           | Some 0 => mkout evs [] RetPanic
           | Some h =>
               let '(bh, _) := next_beh (skipn (length evs) script) in
-              let '(got, _) := take_n (b_token uerr) (hb_reads bh) (mkbr (b_buf b) 0 (b_und b)) in
+              let '(got, _) := take_n (b_token tm) (hb_reads bh) (mkbr (b_buf b) 0 (b_und b)) in
               mkout (evs ++ [child_event k h typ got]) [] (ret_of bh)
           end
         else mkout evs [] RetOk
@@ -1059,7 +1134,7 @@ Proof.
     assert (HA : at_view (TStart sn :: x :: toks') (pred (length (x :: toks') + 3))
                    (mkiter (Some 0) CNone (mkbr [TStart sn] 1 (x :: toks'))) (x :: toks')).
     { apply AtTop; cbn [it_cnt it_cur it_b]; auto. cbn [length]. lia. }
-    destruct (fc_loop_spec uerr _ r k typ nz _ _ _ _ script false HA HS) as (bfin & EF & IF).
+    destruct (fc_loop_spec tm _ r k typ nz _ _ _ _ script false HA HS) as (bfin & EF & IF).
     rewrite EF. destruct (spec_events r k typ (TStart sn :: x :: toks') (child_names 0 (x :: toks')) script) as [evs f].
     cbn [orb]. destruct f; [reflexivity|].
     assert (L : length rest + 2 <= length (x :: toks')).
@@ -1073,8 +1148,9 @@ Proof.
   destruct x as [n| |ws|]; try (apply GEN; discriminate).
   (* the empty stanza *)
   clear GEN. cbn [length]. replace (S (length toks') + 3) with (S (S (length toks' + 2))) by lia.
-  assert (Hbt : b_token uerr (mkbr [TStart sn] 1 (TEnd :: toks')) = RTok TEnd (mkbr [TStart sn; TEnd] 2 toks'))
-    by reflexivity.
+  assert (Hbt : b_token tm (mkbr [TStart sn] 1 (TEnd :: toks')) =
+                RTok TEnd (fin_err tm toks') (mkbr [TStart sn; TEnd] 2 toks')).
+  { unfold b_token. cbn [b_off b_buf b_und length Nat.ltb Nat.leb u_token]. rewrite bufreader_buffers. reflexivity. }
   cbn [fc_loop]. unfold iter_next. cbn [it_cur it_cnt it_b]. unfold ir_token, inner_token. rewrite Hbt.
   cbn [it_b b_buf length Nat.eqb app skipn].
   destruct (lookup_child r k typ ([], [])) as [h|] eqn:EL; [|reflexivity].
@@ -1082,39 +1158,39 @@ Proof.
   destruct (next_beh script) as [bh s']. cbn [fst b_und].
   assert (I1 : Inv (TStart sn :: TEnd :: toks') (mkbr [TStart sn; TEnd] 0 toks') (TStart sn :: TEnd :: toks')).
   { unfold Inv. cbn [b_buf b_off b_und length app skipn]. repeat split; auto; lia. }
-  destruct (take_n_b uerr _ (hb_reads bh) _ _ I1) as (br & ET & _). rewrite ET. reflexivity.
+  destruct (take_n_b tm _ (hb_reads bh) _ _ I1) as (br & ET & _). rewrite ET. reflexivity.
 Qed.
 
 (* ------------------------------------------------------------------ *)
 (* 9. HandleXMPP                                                        *)
 (* ------------------------------------------------------------------ *)
 
-Lemma handle_top r ns sn attrs toks uerr script h :
+Lemma handle_top r ns sn attrs toks tm script h :
   lookup_top r sn = Some h -> h <> 0 ->
-  handle r ns sn attrs toks uerr script =
+  handle r ns sn attrs toks tm script =
   let b := fst (next_beh script) in mkout [EvTop h sn (firstn (hb_reads b) toks)] [] (ret_of b).
 Proof.
   intros E Hz. unfold handle. rewrite E. unfold run_top. destruct h as [|h]; [congruence|].
   destruct (next_beh script) as [b s']. rewrite take_n_u. reflexivity.
 Qed.
 
-Lemma handle_not_stanza r ns sn attrs toks uerr script :
-  lookup_top r sn = None -> stanza_is sn ns = false -> handle r ns sn attrs toks uerr script = out_nothing.
+Lemma handle_not_stanza r ns sn attrs toks tm script :
+  lookup_top r sn = None -> stanza_is sn ns = false -> handle r ns sn attrs toks tm script = out_nothing.
 Proof. intros E1 E2. unfold handle. rewrite E1, E2. reflexivity. Qed.
 
-Lemma handle_iq r ns sn attrs toks uerr script :
+Lemma handle_iq r ns sn attrs toks tm script :
   lookup_top r sn = None -> stanza_is sn ns = true -> snd sn = str "iq" ->
-  handle r ns sn attrs toks uerr script = iq_router r sn attrs toks uerr script.
+  handle r ns sn attrs toks tm script = iq_router r sn attrs toks tm script.
 Proof. intros E1 E2 E3. unfold handle. rewrite E1, E2, E3. reflexivity. Qed.
 
-Lemma handle_message r ns sn attrs toks uerr script :
+Lemma handle_message r ns sn attrs toks tm script :
   lookup_top r sn = None -> stanza_is sn ns = true -> snd sn = str "message" ->
-  handle r ns sn attrs toks uerr script = msg_router r sn attrs toks uerr script.
+  handle r ns sn attrs toks tm script = msg_router r sn attrs toks tm script.
 Proof. intros E1 E2 E3. unfold handle. rewrite E1, E2, E3. reflexivity. Qed.
 
-Lemma handle_presence r ns sn attrs toks uerr script :
+Lemma handle_presence r ns sn attrs toks tm script :
   lookup_top r sn = None -> stanza_is sn ns = true -> snd sn = str "presence" ->
-  handle r ns sn attrs toks uerr script = pres_router r sn attrs toks uerr script.
+  handle r ns sn attrs toks tm script = pres_router r sn attrs toks tm script.
 Proof. intros E1 E2 E3. unfold handle. rewrite E1, E2, E3. reflexivity. Qed.
 
 (* a stanza is one of the three names, in the mux's namespace (any if it has none) *)
@@ -1168,11 +1244,11 @@ Proof.
 Qed.
 
 (* messages and presences never make the mux write anything *)
-Lemma for_children_no_replies r k sn typ toks uerr script : o_replies (for_children r k sn typ toks uerr script) = [].
+Lemma for_children_no_replies r k sn typ toks tm script : o_replies (for_children r k sn typ toks tm script) = [].
 Proof.
   unfold for_children. destruct (fc_loop _ _ _ _ _ _ _ _) as [|evs|evs b ie f]; try reflexivity.
   destruct ie; [reflexivity|]. destruct f; [reflexivity|]. destruct (length (b_buf b) =? 2); [|reflexivity].
-  destruct (lookup_child r k typ ([], [])) as [[|h]|]; try reflexivity.
+  destruct (lookup_child r k typ _) as [[|h]|]; try reflexivity.
   destruct (next_beh _) as [bh s']. destruct (take_n _ _ _) as [got br]. reflexivity.
 Qed.
 
@@ -1248,13 +1324,13 @@ Qed.
 (* no option registers the reserved id 0 *)
 Definition valid_ids (ops : list regop) : Prop := forall op, In op ops -> op_h op <> HOk 0.
 
-Lemma thm_top_level ops r ns sn attrs toks uerr script :
+Lemma thm_top_level ops r ns sn attrs toks tm script :
   new_mux ops = Some r -> valid_ids ops ->
   match lookup_top r sn with
   | Some h =>
-      handle r ns sn attrs toks uerr script =
+      handle r ns sn attrs toks tm script =
       let b := fst (next_beh script) in mkout [EvTop h sn (firstn (hb_reads b) toks)] [] (ret_of b)
-  | None => stanza_is sn ns = false -> handle r ns sn attrs toks uerr script = out_nothing
+  | None => stanza_is sn ns = false -> handle r ns sn attrs toks tm script = out_nothing
   end.
 Proof.
   intros H V. pose proof (new_mux_nonzero _ _ H V) as NZ.
@@ -1263,50 +1339,56 @@ Proof.
   - intro S. apply handle_not_stanza; assumption.
 Qed.
 
-Lemma thm_iq_dispatch ops r ns sn attrs toks uerr script h n rest hd :
+Lemma fin_err_cons tm x rest : fin_err tm (x :: rest) = None.
+Proof. reflexivity. Qed.
+
+Lemma thm_iq_dispatch ops r ns sn attrs toks tm script h n rest hd :
   new_mux ops = Some r -> valid_ids ops ->
   lookup_top r sn = None -> stanza_is sn ns = true -> snd sn = str "iq" ->
   new_iq sn attrs = Some h ->
-  drop_ws toks = TStart n :: rest ->
+  drop_ws toks = TStart n :: rest -> rest <> [] ->
   lookup_iq r (h_type h) n = Some hd ->
-  handle r ns sn attrs toks uerr script =
+  handle r ns sn attrs toks tm script =
   let b := fst (next_beh script) in
   mkout [EvIq hd (h_type h) (Some n) (firstn (hb_reads b) (until_close 1 rest))] [] (ret_of b).
 Proof.
-  intros H V E1 E2 E3 Hh Hd Hl. pose proof (new_mux_nonzero _ _ H V) as NZ.
+  intros H V E1 E2 E3 Hh Hd Hne Hl. pose proof (new_mux_nonzero _ _ H V) as NZ.
   rewrite (handle_iq _ _ _ _ _ _ _ E1 E2 E3), (iq_router_spec _ _ _ _ _ _ _ Hh).
-  unfold iq_spec. rewrite Hd. unfold iq_invoke_spec. rewrite Hl.
+  unfold iq_spec. rewrite Hd. destruct rest as [|y rest']; [contradiction|]. rewrite fin_err_cons.
+  unfold iq_invoke_spec. rewrite Hl.
   pose proof (lookup_nonzero r TblIq (h_type h) n hd NZ Hl) as Hz. destruct hd as [|hd]; [congruence|reflexivity].
 Qed.
 
-(* an IQ that no handler is chosen for *)
-Definition iq_unhandled (r : registry) (h : hdr) (toks : list tok) (uerr : bool) : Prop :=
+(* an IQ that no handler is chosen for (and whose reader does not fail with an
+   error other than io.EOF before the payload is known) *)
+Definition iq_unhandled (r : registry) (h : hdr) (toks : list tok) (tm : term) : Prop :=
   match drop_ws toks with
-  | TStart n :: _ => lookup_iq r (h_type h) n = None
+  | [] => t_err tm = false /\ (h_type h = str "result" -> lookup_iq r (h_type h) ([], []) = None)
   | TEnd :: _ => h_type h = str "result" -> lookup_iq r (h_type h) ([], []) = None
-  | [] => uerr = false /\ (h_type h = str "result" -> lookup_iq r (h_type h) ([], []) = None)
-  | _ :: _ => True
+  | x :: rest =>
+      fin_err tm rest <> Some true /\
+      match x with TStart n => lookup_iq r (h_type h) n = None | _ => True end
   end.
 
 Definition is_request (typ : bytes) : bool := bytes_eqb typ (str "get") || bytes_eqb typ (str "set").
 
 (* the defaults clause for IQs, as the property states it *)
 Definition iq_defaults_at (r : registry) (ns : bytes) (sn : name) (attrs : list attr) (toks : list tok)
-  (uerr : bool) (script : list hbeh) (h : hdr) : Prop :=
+  (tm : term) (script : list hbeh) (h : hdr) : Prop :=
   lookup_top r sn = None -> stanza_is sn ns = true -> snd sn = str "iq" -> new_iq sn attrs = Some h ->
-  iq_unhandled r h toks uerr ->
-  o_events (handle r ns sn attrs toks uerr script) = [] /\
-  o_replies (handle r ns sn attrs toks uerr script) =
+  iq_unhandled r h toks tm ->
+  o_events (handle r ns sn attrs toks tm script) = [] /\
+  o_replies (handle r ns sn attrs toks tm script) =
     (if is_request (h_type h) then [service_unavailable sn h] else []).
 
 Lemma result_eqb typ : bytes_eqb typ iqtype_result = true <-> typ = str "result".
 Proof. destruct iq_types as (_ & _ & R & _). rewrite R. apply bytes_eqb_eq. Qed.
 
-Lemma iq_unhandled_replies r ns sn attrs toks uerr script h :
+Lemma iq_unhandled_replies r ns sn attrs toks tm script h :
   lookup_top r sn = None -> stanza_is sn ns = true -> snd sn = str "iq" -> new_iq sn attrs = Some h ->
-  iq_unhandled r h toks uerr ->
-  o_events (handle r ns sn attrs toks uerr script) = [] /\
-  o_replies (handle r ns sn attrs toks uerr script) = o_replies (iq_fallback sn h).
+  iq_unhandled r h toks tm ->
+  o_events (handle r ns sn attrs toks tm script) = [] /\
+  o_replies (handle r ns sn attrs toks tm script) = o_replies (iq_fallback sn h).
 Proof.
   intros E1 E2 E3 Hh U.
   rewrite (handle_iq _ _ _ _ _ _ _ E1 E2 E3), (iq_router_spec _ _ _ _ _ _ _ Hh).
@@ -1317,18 +1399,24 @@ Proof.
   { intro HU. unfold iq_empty_spec. destruct (bytes_eqb (h_type h) iqtype_result) eqn:ER; [|split; reflexivity].
     apply result_eqb in ER. unfold iq_invoke_spec. rewrite (HU ER).
     rewrite iq_fallback_spec. destruct (in_list _ _); split; reflexivity. }
+  assert (INV : forall n content, lookup_iq r (h_type h) n = None ->
+                  o_events (iq_invoke_spec r sn h (Some n) content script) = [] /\
+                  o_replies (iq_invoke_spec r sn h (Some n) content script) = o_replies (iq_fallback sn h)).
+  { intros n content HU. unfold iq_invoke_spec. rewrite HU. rewrite iq_fallback_spec.
+    destruct (in_list _ _); split; reflexivity. }
   destruct (drop_ws toks) as [|x rest].
-  - destruct U as [Ue HU]. subst uerr. apply EMPTY. exact HU.
+  - destruct U as [Ue HU]. rewrite Ue. apply EMPTY. exact HU.
   - destruct x as [n| |ws|].
-    + unfold iq_invoke_spec. rewrite U. rewrite iq_fallback_spec. destruct (in_list _ _); split; reflexivity.
+    + destruct U as [Uf U]. destruct (fin_err tm rest) as [[|]|]; [congruence| |apply INV; exact U].
+      destruct (bytes_eqb (h_type h) iqtype_result); [apply INV; exact U|split; reflexivity].
     + apply EMPTY. exact U.
-    + split; reflexivity.
-    + split; reflexivity.
+    + destruct U as [Uf _]. destruct (fin_err tm rest) as [[|]|]; [congruence|split; reflexivity|split; reflexivity].
+    + destruct U as [Uf _]. destruct (fin_err tm rest) as [[|]|]; [congruence|split; reflexivity|split; reflexivity].
 Qed.
 
-Lemma thm_defaults_partial r ns sn attrs toks uerr script h :
+Lemma thm_defaults_partial r ns sn attrs toks tm script h :
   In (h_type h) [str "get"; str "set"; str "result"; str "error"] ->
-  iq_defaults_at r ns sn attrs toks uerr script h.
+  iq_defaults_at r ns sn attrs toks tm script h.
 Proof.
   intros HT E1 E2 E3 Hh U. destruct (iq_unhandled_replies _ _ _ _ _ _ script _ E1 E2 E3 Hh U) as [A B].
   split; [exact A|]. rewrite B, iq_fallback_spec.
@@ -1337,12 +1425,15 @@ Qed.
 
 (* the witness: an IQ without type attribute is answered although it is no request *)
 Lemma thm_defaults_refuted :
-  exists r ns sn attrs toks uerr script h, ~ iq_defaults_at r ns sn attrs toks uerr script h.
+  exists r ns sn attrs toks tm script h, ~ iq_defaults_at r ns sn attrs toks tm script h.
 Proof.
   exists empty_reg, (str "jabber:client"), (str "jabber:client", str "iq"),
-         [mkattr [] (str "id") (str "x1") None], [TStart (str "x", str "a"); TEnd; TEnd], false, [],
+         [mkattr [] (str "id") (str "x1") None], [TStart (str "x", str "a"); TEnd; TEnd], (mkterm false false), [],
          (mkhdr [] (str "x1") None None []).
-  intro H. destruct H as [_ H]; try reflexivity. vm_compute in H. discriminate.
+  intro H. unfold iq_defaults_at in H.
+  assert (U : iq_unhandled empty_reg (mkhdr [] (str "x1") None None []) [TStart (str "x", str "a"); TEnd; TEnd] (mkterm false false)).
+  { split; [discriminate|reflexivity]. }
+  destruct (H eq_refl eq_refl eq_refl eq_refl U) as [_ H']. vm_compute in H'. discriminate.
 Qed.
 
 (* messages and presences *)
@@ -1350,20 +1441,20 @@ Definition child_local (k : skind) : bytes := match k with SMsg => str "message"
 Definition child_hdr (k : skind) (sn : name) (attrs : list attr) : option hdr :=
   match k with SMsg => new_message sn attrs | SPres => new_presence sn attrs end.
 
-Lemma handle_children r ns sn attrs toks uerr script k h :
+Lemma handle_children r ns sn attrs toks tm script k h :
   lookup_top r sn = None -> stanza_is sn ns = true -> snd sn = child_local k -> child_hdr k sn attrs = Some h ->
-  handle r ns sn attrs toks uerr script = for_children r k sn (h_type h) toks uerr script.
+  handle r ns sn attrs toks tm script = for_children r k sn (h_type h) toks tm script.
 Proof.
   intros E1 E2 E3 Hh. destruct k; cbn [child_local child_hdr] in *.
   - rewrite (handle_message _ _ _ _ _ _ _ E1 E2 E3). unfold msg_router. rewrite Hh. reflexivity.
   - rewrite (handle_presence _ _ _ _ _ _ _ E1 E2 E3). unfold pres_router. rewrite Hh. reflexivity.
 Qed.
 
-Lemma thm_children ops r ns sn attrs toks uerr script k h rest :
+Lemma thm_children ops r ns sn attrs toks tm script k h rest :
   new_mux ops = Some r -> valid_ids ops ->
   lookup_top r sn = None -> stanza_is sn ns = true -> snd sn = child_local k -> child_hdr k sn attrs = Some h ->
   skip_elem 0 toks = Some rest ->
-  handle r ns sn attrs toks uerr script = children_spec r k sn (h_type h) toks script.
+  handle r ns sn attrs toks tm script = children_spec r k sn (h_type h) toks script.
 Proof.
   intros H V E1 E2 E3 Hh HS. pose proof (new_mux_nonzero _ _ H V) as NZ.
   rewrite (handle_children _ _ _ _ _ _ _ _ _ E1 E2 E3 Hh).
@@ -1373,11 +1464,11 @@ Qed.
 
 (* whatever earlier handlers consumed, every handler run for a message or
    presence was given the stanza's tokens from its start element on *)
-Lemma thm_children_whole_stanza ops r ns sn attrs toks uerr script k h rest e :
+Lemma thm_children_whole_stanza ops r ns sn attrs toks tm script k h rest e :
   new_mux ops = Some r -> valid_ids ops ->
   lookup_top r sn = None -> stanza_is sn ns = true -> snd sn = child_local k -> child_hdr k sn attrs = Some h ->
   skip_elem 0 toks = Some rest ->
-  In e (o_events (handle r ns sn attrs toks uerr script)) ->
+  In e (o_events (handle r ns sn attrs toks tm script)) ->
   exists hd n, e = child_event k hd (h_type h) (firstn n (TStart sn :: toks)).
 Proof.
   intros H V E1 E2 E3 Hh HS Hin. rewrite (thm_children _ _ _ _ _ _ _ _ _ _ _ H V E1 E2 E3 Hh HS) in Hin.
@@ -1396,11 +1487,11 @@ Proof.
 Qed.
 
 (* which handlers run, and in which order: those the element children select *)
-Lemma thm_children_chosen ops r ns sn attrs toks uerr script k h rest :
+Lemma thm_children_chosen ops r ns sn attrs toks tm script k h rest :
   new_mux ops = Some r -> valid_ids ops ->
   lookup_top r sn = None -> stanza_is sn ns = true -> snd sn = child_local k -> child_hdr k sn attrs = Some h ->
   skip_elem 0 toks = Some rest -> (forall t', toks <> TEnd :: t') ->
-  map event_hid (o_events (handle r ns sn attrs toks uerr script)) = chosen r k (h_type h) (child_names 0 toks).
+  map event_hid (o_events (handle r ns sn attrs toks tm script)) = chosen r k (h_type h) (child_names 0 toks).
 Proof.
   intros H V E1 E2 E3 Hh HS NE. rewrite (thm_children _ _ _ _ _ _ _ _ _ _ _ H V E1 E2 E3 Hh HS).
   unfold children_spec. pose proof (spec_events_chosen r k (h_type h) (TStart sn :: toks) (child_names 0 toks) script) as C.
@@ -1409,10 +1500,10 @@ Proof.
   exfalso. exact (NE t' eq_refl).
 Qed.
 
-Lemma thm_empty_stanza ops r ns sn attrs rest uerr script k h :
+Lemma thm_empty_stanza ops r ns sn attrs rest tm script k h :
   new_mux ops = Some r -> valid_ids ops ->
   lookup_top r sn = None -> stanza_is sn ns = true -> snd sn = child_local k -> child_hdr k sn attrs = Some h ->
-  handle r ns sn attrs (TEnd :: rest) uerr script =
+  handle r ns sn attrs (TEnd :: rest) tm script =
   match lookup_child r k (h_type h) ([], []) with
   | None => out_nothing
   | Some hd =>
@@ -1421,24 +1512,62 @@ Lemma thm_empty_stanza ops r ns sn attrs rest uerr script k h :
   end.
 Proof.
   intros H V E1 E2 E3 Hh.
-  exact (thm_children _ _ _ _ _ (TEnd :: rest) uerr script _ _ rest H V E1 E2 E3 Hh eq_refl).
+  exact (thm_children _ _ _ _ _ (TEnd :: rest) tm script _ _ rest H V E1 E2 E3 Hh eq_refl).
+Qed.
+
+(* the lookup made for the empty stanza - with the zero name - finds the bare
+   type wildcard and nothing else: patterns with a name, be it the stanza
+   element's own local name or name space, cannot be chosen for it *)
+Definition child_tbl (k : skind) : tbl := match k with SMsg => TblMsg | SPres => TblPres end.
+
+Lemma lookup_child_lookup r k typ n : lookup_child r k typ n = lookup r (child_tbl k) typ n.
+Proof. destruct k; reflexivity. Qed.
+
+Lemma lookup_zero r t typ :
+  t <> TblTop ->
+  lookup r t typ ([], []) = assoc (mkkey (stanza_of t) (type_of t typ) ([], [])) (table_of r t).
+Proof.
+  intro Ht. rewrite lookup_is_probe. destruct t; [contradiction| | |]; unfold probe4;
+    destruct (assoc _ _); reflexivity.
+Qed.
+
+Lemma wildcard_lookup_registered ops r k typ hd :
+  new_mux ops = Some r ->
+  (lookup_child r k typ ([], []) = Some hd <-> registered ops (child_tbl k) typ ([], []) hd).
+Proof.
+  intro H. destruct (new_mux_spec _ _ H) as (U & _).
+  rewrite lookup_child_lookup, lookup_zero by (destruct k; discriminate).
+  rewrite <- (entry_registered _ _ _ _ _ _ H). split.
+  - apply assoc_entry.
+  - apply entry_assoc. apply U.
+Qed.
+
+(* bufReader.Token at the end of its buffer: the token fetched from the
+   underlying reader is appended to the buffer and handed on together with the
+   error that came with it, whatever that is *)
+Lemma b_token_fetch tm b x u :
+  b_off b = length (b_buf b) -> b_und b = x :: u ->
+  b_token tm b = RTok x (fin_err tm u) (mkbr (b_buf b ++ [x]) (S (b_off b)) u).
+Proof.
+  intros Ho Hu. unfold b_token. rewrite Ho, Nat.ltb_irrefl, Hu. cbn [u_token].
+  rewrite bufreader_buffers. reflexivity.
 Qed.
 
 (* nothing is written for messages and presences; nothing runs if no child selects a handler *)
-Lemma thm_children_defaults r ns sn attrs toks uerr script k h :
+Lemma thm_children_defaults r ns sn attrs toks tm script k h :
   lookup_top r sn = None -> stanza_is sn ns = true -> snd sn = child_local k -> child_hdr k sn attrs = Some h ->
-  o_replies (handle r ns sn attrs toks uerr script) = [].
+  o_replies (handle r ns sn attrs toks tm script) = [].
 Proof.
   intros E1 E2 E3 Hh. rewrite (handle_children _ _ _ _ _ _ _ _ _ E1 E2 E3 Hh). apply for_children_no_replies.
 Qed.
 
-Lemma thm_children_unhandled ops r ns sn attrs toks uerr script k h rest :
+Lemma thm_children_unhandled ops r ns sn attrs toks tm script k h rest :
   new_mux ops = Some r -> valid_ids ops ->
   lookup_top r sn = None -> stanza_is sn ns = true -> snd sn = child_local k -> child_hdr k sn attrs = Some h ->
   skip_elem 0 toks = Some rest ->
   (forall n, In n (child_names 0 toks) -> lookup_child r k (h_type h) n = None) ->
   (forall t', toks = TEnd :: t' -> lookup_child r k (h_type h) ([], []) = None) ->
-  handle r ns sn attrs toks uerr script = out_nothing.
+  handle r ns sn attrs toks tm script = out_nothing.
 Proof.
   intros H V E1 E2 E3 Hh HS HN HW. rewrite (thm_children _ _ _ _ _ _ _ _ _ _ _ H V E1 E2 E3 Hh HS).
   unfold children_spec. destruct toks as [|x t']; [discriminate|].
